@@ -52,7 +52,7 @@ func (Engine) Property() string { return "C08" }
 var Locs = []string{
 	"global", "math.attr", "math.new", "sys.path.append", "sys.path.rebind", "sys.argv.inplace", "sys.argv.rebind",
 	"builtins.new", "builtins.len", "srcmod.val", "srcmod.list", "srcmod.dict", "class.attr", "func.default",
-	"type.int", "type.list", "type.exc", "os.environ", "string.attr", "time.attr", "sys.new", "print.capture",
+	"type.int", "type.list", "type.exc", "os.environ", "string.attr", "time.attr", "sys.new", "print.capture", "nested.cfg",
 }
 
 func writeStmt(loc string, v int) string {
@@ -94,6 +94,10 @@ func writeStmt(loc string, v int) string {
 		return "try:\n    list.zz_attr = " + val + "\nexcept TypeError:\n    pass"
 	case "type.exc":
 		return "try:\n    ValueError.zz_attr = " + val + "\nexcept TypeError:\n    pass"
+	case "nested.cfg":
+		// hlp.py (one shared file, same directory for every context) imports cfg,
+		// which each context finds in its OWN directory
+		return "try:\n    import hlp\n    hlp.cfg.val = " + val + "\nexcept ImportError:\n    pass"
 	case "print.capture":
 		// print() must write to THIS context's sys.stdout
 		return "import sys\nsys.stdout = _Cap()\nprint(" + val + ")"
@@ -141,6 +145,8 @@ func readExpr(loc string) (prelude, expr string) {
 		return "", "list.zz_attr"
 	case "type.exc":
 		return "", "ValueError.zz_attr"
+	case "nested.cfg":
+		return "import hlp", "(hlp.cfg.val, hlp.cfg.home)"
 	case "print.capture":
 		return "import sys", "_captured(sys.stdout)"
 	case "os.environ":
@@ -176,6 +182,8 @@ def kw(a, b=2, *rest, c=3, d=4, **more):
     return (a, b, rest, c, d, sorted(more.keys()))
 def kw12(p0, p1=1, p2=2, p3=3, p4=4, p5=5, p6=6, p7=7, p8=8, p9=9, *, k0=10, k1=11):
     return p0 + p1 * 2 + p5 * 3 + p9 * 5 + k0 * 7 + k1 * 11
+def kw20(q0, q1=1, q2=2, q3=3, q4=4, q5=5, q6=6, q7=7, q8=8, q9=9, q10=10, q11=11, q12=12, q13=13, q14=14, q15=15, q16=16, q17=17, *, r0=18, r1=19):
+    return q0 + q7 * 2 + q16 * 3 + q17 * 5 + r0 * 7 + r1 * 11
 def mkcounter(start):
     n = [start]
     def inc(step=1):
@@ -195,6 +203,7 @@ class Box:
 def workout(k):
     out = [kw(k, c=k + 1), kw(k, k, k, d=5, zz=1, yy=2), kw(a=k, b=k)]
     out.append([kw12(k, p9=k, k1=2), kw12(p0=1, p5=k, k0=k), kw12(k, 1, 2, 3, 4, 5, 6, 7, p8=0, p9=k)])
+    out.append([kw20(k, q17=k, r1=2), kw20(q0=1, q16=k, r0=k), kw20(k, q9=1)])
     inc = mkcounter(k)
     out.append([inc(), inc(step=2)])
     out.append(list(gen3(k)))
@@ -250,13 +259,22 @@ func projOf(c int) (dir, marker string) {
 func (Engine) Gen(seed uint64, idx int, tier string) interface{} {
 	r := simrt.NewRand(simrt.Mix(seed, 0x08, uint64(idx)))
 	excl := harness.Excluded("isolation")
+	sc := &Scenario{SSeed: r.Uint64(), Order: simrt.MapOrder{Kind: r.Intn(4), K: r.Uint64()}}
+	sc.SharedCode = r.Chance(1, 5)
+	sc.RelPaths = !sc.SharedCode && r.Chance(1, 4)
 	var locs []string
 	for _, l := range Locs {
-		if !excl[l] {
-			locs = append(locs, l)
+		if excl[l] {
+			continue
 		}
+		if l == "nested.cfg" && sc.RelPaths {
+			// in relative mode hlp.py's own import of cfg resolves against hlp's
+			// directory and fails; a repeated import of the half-initialised hlp
+			// is outside what C08 (or C19) states
+			continue
+		}
+		locs = append(locs, l)
 	}
-	sc := &Scenario{SSeed: r.Uint64(), Order: simrt.MapOrder{Kind: r.Intn(4), K: r.Uint64()}}
 	n := 2 + r.Intn(3)
 	if tier == "thorough" && r.Chance(1, 3) {
 		n = 4 + r.Intn(4)
@@ -291,8 +309,7 @@ func (Engine) Gen(seed uint64, idx int, tier string) interface{} {
 		}
 		sc.Progs = append(sc.Progs, p)
 	}
-	sc.SharedCode = r.Chance(1, 5)
-	sc.RelPaths = !sc.SharedCode && r.Chance(1, 4)
+
 	switch r.Intn(4) {
 	case 0:
 		sc.Policy, sc.PNum = "random", 1+r.Intn(60)
@@ -453,7 +470,7 @@ type ctxOut struct {
 }
 
 func runProgram(src string, code *py.Code, lib string, file string) (o ctxOut) {
-	s, err := pyhost.NewSession([]string{lib})
+	s, err := pyhost.NewSession([]string{lib, "/simcwd/common"})
 	if err != nil {
 		o.exc = "SETUP:" + err.Error()
 		return o
@@ -483,6 +500,9 @@ func (Engine) Exec(sci interface{}, opt harness.ExecOpts) *harness.Outcome {
 	fs := simfs.New()
 	fs.AddFile("/simcwd/lib0/shm.py", shmSrc("init0"))
 	fs.AddFile("/simcwd/lib1/shm.py", shmSrc("init1"))
+	fs.AddFile("/simcwd/common/hlp.py", "import cfg\n")
+	fs.AddFile("/simcwd/lib0/cfg.py", "val = \"cfg\"\nhome = \"init0\"\n")
+	fs.AddFile("/simcwd/lib1/cfg.py", "val = \"cfg\"\nhome = \"init1\"\n")
 	simfs.Install(fs)
 	defer simfs.Install(nil)
 
@@ -508,6 +528,7 @@ func (Engine) Exec(sci interface{}, opt harness.ExecOpts) *harness.Outcome {
 		for i := range srcs {
 			d, m := projOf(i)
 			fs.AddFile(d+"/shm.py", shmSrc(m))
+			fs.AddFile(d+"/cfg.py", "val = \"cfg\"\nhome = \""+m+"\"\n")
 			fs.AddFile(d+"/main.py", srcs[i])
 		}
 	}
